@@ -29,10 +29,7 @@ def _scalar(v):
         if not np.isfinite(v):
             raise Unsupported('non-finite input')
         n, d = v.as_integer_ratio()
-        fr = F(int(n), int(d))
-        if isinstance(v, np.longdouble) and F(float(v)) != fr:
-            raise Unsupported('longdouble that is not a double')
-        return fr
+        return F(int(n), int(d))      # (also extended precision: the exact value of the carrier is what counts)
     if isinstance(v, (complex, np.complexfloating)):
         re, im = float(v.real), float(v.imag)
         if not (math.isfinite(re) and math.isfinite(im)):
